@@ -227,7 +227,14 @@ def op_props_new(a):
 def op_frame_pack(a):
     f = _frame(a)
     if a["set_len"]:
-        f.set_frame_len_in_header()
+        before = int(f.header.frame_len) if a["hdr"]["kind"] == "primary" else None
+        try:
+            f.set_frame_len_in_header()
+        except ValueError:
+            # a refusal (frame too long for the 16-bit field) leaves the header as it was
+            if before is not None and int(f.header.frame_len) != before:
+                raise SelfCheckFailure("set_frame_len_in_header() raised ValueError but changed the frame length field")
+            raise
     ft = _ft(a["frame_type"])
     raw = core.pack_stable(f, "TransferFrame.pack()", packer=lambda: f.pack(truncated=bool(a["truncated"]), frame_type=ft))
     is_primary = a["hdr"]["kind"] == "primary"
@@ -752,6 +759,24 @@ class C17(Prop):
                 raw = enc_frame(f)
                 yield Case({"op": "uslp_frame_unpack", "raw": hx(raw), "frame_type": ft, "props": matching_props(f, ft, len(raw), rng),
                             "check": True}, "valid", tag="large")
+        # frames too long for the 16-bit frame length field: set_frame_len_in_header() refuses (ValueError, never a
+        # truncated field); without the call the frame still packs with the field as given; a truncated header has no
+        # length field and nothing is checked
+        for total in ((65537, 65538, 65600, 70000, 131072) if thorough else (65537, 65538, 66000)):
+            for rules in (1, 7):
+                f, ft = wf_frame(rng, rules, False, total - 65000, True, 2, 0)
+                over = frame_total_len(f)
+                f["tfdf"]["tfdz"] = hx(rbytes(rng, total - over))
+                assert frame_total_len(f) == total
+                f["hdr"]["frame_len"] = rng.choice([0, 0xFFFF, (total - 1) & 0xFFFF, rng.randint(0, 65535)])
+                yield Case({"op": "uslp_frame_pack", **f, "truncated": 0, "frame_type": ft, "set_len": 1}, "invalid",
+                           errclass=True, tag="too-long-set-len")
+                yield Case({"op": "uslp_frame_pack", **f, "truncated": 0, "frame_type": ft, "set_len": 0}, "valid",
+                           tag="too-long-no-set-len")
+            f, ft = wf_frame(rng, rng.choice(sorted(VP_RULES)), True, total - 65000, False, 2, 0)
+            f["tfdf"]["tfdz"] = hx(rbytes(rng, total - frame_total_len(f)))
+            yield Case({"op": "uslp_frame_pack", **f, "truncated": 1, "frame_type": ft, "set_len": 1}, "valid",
+                       tag="too-long-truncated-hdr")
         # --- encoder refusals: OCF flag / field disagree (UslpInvalidFrameHeader), OCF of the wrong size (ValueError),
         #     out-of-range ids inside a frame
         for _ in range(40):
